@@ -10,7 +10,7 @@ def build(ctx, alt=False):
     # the C++ twin needs -fno-access-control; build it as a separate object
     import os, subprocess
     obj = os.path.join(ctx.work, "drv_term_xx%s.o" % ("_alt" if alt else ""))
-    ctx.sh(["g++", "-std=gnu++20", "-g"] + core.opt_flags(alt) + ["-fsanitize=address", "-fno-omit-frame-pointer", "-fno-access-control", "-w",
+    ctx.sh(["g++", "-std=gnu++20", "-g"] + core.opt_flags(alt) + core.cov_flags() + ["-fsanitize=address", "-fno-omit-frame-pointer", "-fno-access-control", "-w",
             "-I" + R, "-I" + core.HARNESS, "-c", os.path.join(core.HARNESS, "drv_term_xx.cpp"), "-o", obj], timeout=600)
     return ctx.cxx("drv_term" + ("_alt" if alt else ""), ["drv_term.cpp", R + "/igris/shell/vterm.c", R + "/igris/shell/vtermxx.cpp", R + "/igris/util/numconvert.c"], objs=[obj], alt=alt)
 
